@@ -199,10 +199,13 @@ class Gen:
             ins.append(S('sockfail', act=rng.choice(['send', 'inbound'])))
         ins += [S('close', g=c + 1) for c in range(k)]
         T = base['cfg']['T']
+        cfg = dict(base['cfg'])
+        if k > 1 and rng.random() < 0.6:
+            cfg['discdelay'] = rng.choice([20, 200, 2000])   # the disconnect request's socket write takes a while
         ins += [S('flush', n=1), S('adv', d=odd(rng, base['cfg']['R'])), S('census'), S('send', g=7, p=self.newpid()), S('recv'),
                 S('adv', d=odd(rng, T)), S('census')]
         tail = [s for s in st[pos:pos + rng.randrange(0, 6)] if s['op'] not in ('connect', 'new', 'reader', 'drain')]
-        return dict(run=base['run'], cfg=base['cfg'], steps=st[:pos] + ins + tail, tag='close+' + base.get('tag', ''))
+        return dict(run=base['run'], cfg=cfg, steps=st[:pos] + ins + tail, tag='close+' + base.get('tag', ''))
 
     # ---- C17: bursts ------------------------------------------------------------
     def burst(self, run, size, mode, group=False, tcp=False):
@@ -222,6 +225,8 @@ class Gen:
             if mode == 'intermittent':
                 for _ in range(rng.randrange(0, 3)):
                     st.append(S('recv'))
+            if mode != 'ready' and rng.random() < 0.5:
+                st.append(S('adv', d=odd(rng, rng.choice([R // 2, R, 2 * R, T]))))   # the application stalls for a while
         if mode == 'ready':
             st.append(S('reader', act='off'))
         st.append(S('drain'))
